@@ -58,6 +58,18 @@ Nul == <<
   [t |-> "u8",    v |-> 7],
   [t |-> "str",   v |-> "ab"] >>
 
+\* value classes and type variants the small universes above do not contain: arithmetic values named by a
+\* string (the driver maps the name to the exact bit pattern and back), structs of 3 / 24 / 32 (alignas 32) bytes
+Vals == <<
+  [t |-> "f64x", v |-> "0.1"], [t |-> "f64x", v |-> "1/3"], [t |-> "f64x", v |-> "subnormal"], [t |-> "f64x", v |-> "max"],
+  [t |-> "f64x", v |-> "min-normal"], [t |-> "f64x", v |-> "-inf"], [t |-> "f64x", v |-> "-1e300"],
+  [t |-> "f32x", v |-> "0.1"], [t |-> "f32x", v |-> "subnormal"], [t |-> "f32x", v |-> "max"], [t |-> "f32x", v |-> "-inf"],
+  [t |-> "u64x", v |-> "2^31"], [t |-> "u64x", v |-> "2^32-1"], [t |-> "u64x", v |-> "2^32"], [t |-> "u64x", v |-> "2^32+1"],
+  [t |-> "u64x", v |-> "2^63"], [t |-> "u64x", v |-> "SIZE_MAX"], [t |-> "u64x", v |-> "SIZE_MAX/4"],
+  [t |-> "i32x", v |-> "INT_MIN"], [t |-> "i32x", v |-> "INT_MAX"], [t |-> "i32x", v |-> "-1"],
+  [t |-> "u8", v |-> 0], [t |-> "u8", v |-> 127], [t |-> "u8", v |-> 128], [t |-> "u8", v |-> 255],
+  [t |-> "pod3", v |-> <<255, 0, 128>>], [t |-> "pod24", v |-> <<-9, 1, 17>>], [t |-> "pod32a", v |-> <<-7, 123456789>>] >>
+
 \* what a pre-populated destination holds: longer than (LongPre) / as short as possible but not empty
 \* (ShortPre) compared with every value of its type in the universes
 LongPre(T) ==
